@@ -129,7 +129,7 @@ func c18Chan(tag, name string, clients int, paused bool) *c18ChannelJSON {
 		RequeueCount: verifrt.Int64(tag + ".requeue"), TimeoutCount: verifrt.Int64(tag + ".timeout"), ClientCount: verifrt.Int(tag + ".clients"),
 		Clients: []*c18ClientJSON{}, Paused: paused, E2e: &c18E2eJSON{Count: verifrt.Int(tag + ".e2e")}}
 	for i := 0; i < clients; i++ {
-		cl := &c18ClientJSON{ClientID: tag, Hostname: "ch", Version: "V2", RemoteAddress: "10.1.1.1:5", MessageCount: verifrt.Int64(tag + ".client.msgs"), ConnectTs: 1600000000}
+		cl := &c18ClientJSON{ClientID: tag + "#" + string(rune('0'+i)), Hostname: "ch", Version: "V2", RemoteAddress: "10.1.1.1:5", MessageCount: verifrt.Int64(tag + ".client.msgs"), ConnectTs: 1600000000}
 		if i%2 == 1 {
 			cl.UserAgent = "go-nsq/1.1"
 		}
@@ -383,7 +383,9 @@ func VerifC18_ViewTopic() {
 		}
 		verifrt.Reach("view-topic:two-nodes", have == 2)
 		verifrt.Reach("view-topic:channel-on-one-node-only", have == 2 && len(chanNames) == 2)
-		verifrt.Reach("view-topic:stale-node-without-the-topic", have == 0 && len(f.asked) > 0)
+		if verifrt.Tier() == 1 { // the shape "node that no longer has the topic" exists in the thorough menu only
+			verifrt.Reach("view-topic:stale-node-without-the-topic", have == 0 && len(f.asked) > 0)
+		}
 		verifrt.Observe("view-topic.nodes", len(v.Nodes))
 	})
 }
@@ -433,6 +435,17 @@ func VerifC18_ViewChannel() {
 						}
 					}
 					verifrt.Assert(cl == len(c.Clients), "view-channel:clients-tagged-with-their-node")
+					for _, rc := range c.Clients {
+						one := 0
+						for _, cv := range v.Clients {
+							if cv.ClientID == rc.ClientID {
+								one++
+								verifrt.Assert(cv.Node == n.addr && cv.Hostname == rc.Hostname && cv.MessageCount == rc.MessageCount && cv.UserAgent == rc.UserAgent,
+									"view-channel:client-entry-is-what-its-node-reported")
+							}
+						}
+						verifrt.Assert(one == 1, "view-channel:every-reported-client-listed-once")
+					}
 				}
 			}
 		}
